@@ -14,4 +14,4 @@ CLAIMED = ['C01', 'C02', 'C03', 'C04', 'C05', 'C06', 'C07', 'C08', 'C09', 'C10',
 NOT_APPLICABLE = {}
 
 # guarded hook commits in /repo (MANIFEST.hooks.source_commits)
-HOOK_COMMITS = ['c295dca']
+HOOK_COMMITS = ['c295dca', '040551e']
